@@ -7,6 +7,7 @@ use std::panic;
 mod oracle;
 mod c01;
 mod c02;
+mod c03;
 mod c04;
 mod c05;
 mod c06;
@@ -81,7 +82,8 @@ fn main() {
         "C14" => c14::search(&mut rng, budget, &mut fails),
         "C15" => c15::search(&mut rng, budget, &mut fails),
         "C10" => c10::search(&mut rng, budget, &mut fails),
-        "C04" | "C03" => c04::search(&mut rng, budget, &mut fails),
+        "C04" => c04::search(&mut rng, budget, &mut fails),
+        "C03" => { c03::search(&mut rng, budget, &mut fails); if fails.is_empty() { c04::search(&mut rng, budget, &mut fails); } }
         "C02" => c02::search(&mut rng, budget, &mut fails),
         _ => {
             eprintln!("no replay search for {prop}");
